@@ -1,7 +1,7 @@
 #!/bin/bash
 # Re-run every claimed quick check against /repo (rewrites evidence/*.json); prints one line per check.
 cd /verif
-ids=$(python3 -c "import json;print(' '.join(c['property_id'] for c in json.load(open('MANIFEST.json'))['checks']))")
+ids=${*:-$(python3 -c "import json;print(' '.join(c['property_id'] for c in json.load(open('MANIFEST.json'))['checks']))")}
 for id in $ids; do
   s=$(date +%s)
   out=$(VERIF_SEED=${VERIF_SEED:-1} ./bin/gosymex check $id --tier quick 2>&1)
